@@ -537,4 +537,311 @@ theorem setNumber_top {ops : ObjId → List ObjId} {rank : ObjId → Nat}
     · exact Nat.le_of_lt_succ h
 
 end Reg
+
+/-! ### invariants of the registry -/
+
+/-- Invariant that holds after every root of an `add_knowledge` call (`nodes` may lag behind:
+it is refreshed only at the end of the call). -/
+structure WInv (ops : ObjId → List ObjId) (r : Reg) : Prop where
+  /-- an object has at most one formula number -/
+  numKeys : KeysNodup r.num
+  /-- no two objects share a number; every number is below `num_formulae` -/
+  good : Good r.num r.next
+  /-- numbered objects have numbered operands -/
+  closed : Closed ops r.num
+  graphNodup : r.graph.Nodup
+  /-- the graph holds exactly the numbered objects -/
+  graph_iff : ∀ o, o ∈ r.graph ↔ Numbered r.num o
+  nodeKeys : KeysNodup r.nodes
+  /-- an object found in `nodes` under `n` has formula number `n` -/
+  nodes_sound : ∀ n o, assoc r.nodes n = some o → assoc r.num o = some n
+
+/-- Invariant that holds after every `add_knowledge` call. -/
+structure Inv (ops : ObjId → List ObjId) (r : Reg) : Prop extends WInv ops r where
+  /-- every numbered object is in `nodes` under its number -/
+  nodes_complete : ∀ o n, assoc r.num o = some n → assoc r.nodes n = some o
+
+/-- the numbers in use are exactly `0 … num_formulae - 1` -/
+def Dense (r : Reg) : Prop := ∀ n, n < r.next → ∃ o, numOf r o = some n
+
+namespace Reg
+
+theorem empty_inv (ops : ObjId → List ObjId) : Inv ops Reg.empty where
+  numKeys := List.nodup_nil
+  good := ⟨fun _ _ _ h => by simp [Reg.empty, assoc] at h, fun _ _ h => by simp [Reg.empty, assoc] at h⟩
+  closed := fun _ ⟨_, h⟩ => by simp [Reg.empty, assoc] at h
+  graphNodup := List.nodup_nil
+  graph_iff := fun o => by simp [Reg.empty, Numbered, assoc]
+  nodeKeys := List.nodup_nil
+  nodes_sound := fun _ _ h => by simp [Reg.empty, assoc] at h
+  nodes_complete := fun _ _ h => by simp [Reg.empty, assoc] at h
+
+theorem registered_of {r : Reg} {f n : Nat} (h1 : assoc r.num f = some n)
+    (h2 : assoc r.nodes n = some f) : registered r f = true := by
+  unfold registered numOf
+  rw [h1]
+  simp [h2]
+
+theorem of_registered {r : Reg} {f : Nat} (h : registered r f = true) :
+    ∃ n, assoc r.num f = some n ∧ assoc r.nodes n = some f := by
+  unfold registered numOf at h
+  split at h
+  · next n hn => exact ⟨n, hn, by simpa using h⟩
+  · cases h
+
+/-- re-adding an object that the model holds under its number changes nothing at all -/
+theorem step_registered {ops : ObjId → List ObjId} (fuel : Nat) {r : Reg} {f : ObjId}
+    (h : WInv ops r) (hreg : registered r f = true) : addRootStep ops fuel r f = r := by
+  obtain ⟨n, hn, _⟩ := of_registered hreg
+  have hg : addNodes r.graph (reach ops fuel f) = r.graph := by
+    apply addNodes_eq_self
+    intro x hx
+    exact (h.graph_iff x).mpr (desc_numbered h.closed (desc_of_mem_reach ops fuel f x hx) ⟨n, hn⟩)
+  unfold addRootStep
+  simp only [hreg, if_true, hg]
+
+theorem step_unregistered (ops : ObjId → List ObjId) (fuel : Nat) {r : Reg} {f : ObjId}
+    (hreg : ¬ registered r f = true) :
+    addRootStep ops fuel r f =
+      { num := (setNumber ops fuel f r.next r.num).1
+        next := (setNumber ops fuel f r.next r.num).2 + 1
+        nodes := r.nodes
+        graph := addNodes r.graph (reach ops fuel f) } := by
+  unfold addRootStep
+  simp only [hreg, Bool.false_eq_true, if_false]
+
+/-- one root: the weak invariant is preserved, the graph grows by exactly the descendants of the
+root, `nodes` is untouched -/
+theorem step_winv {ops : ObjId → List ObjId} {rank : ObjId → Nat}
+    (hrank : ∀ o, ∀ c ∈ ops o, rank c < rank o) {fuel : Nat} {r : Reg} {f : ObjId}
+    (hf : rank f < fuel) (h : WInv ops r) :
+    WInv ops (addRootStep ops fuel r f) ∧
+      (∀ o, o ∈ (addRootStep ops fuel r f).graph ↔ o ∈ r.graph ∨ Desc ops f o) := by
+  by_cases hreg : registered r f = true
+  · rw [step_registered fuel h hreg]
+    refine ⟨h, fun o => ⟨Or.inl, ?_⟩⟩
+    rintro (ho | ho)
+    · exact ho
+    · obtain ⟨n, hn, _⟩ := of_registered hreg
+      exact (h.graph_iff o).mpr (desc_numbered h.closed ho ⟨n, hn⟩)
+  · obtain ⟨tk, tg, tc, tiff, tframe, _, _⟩ :=
+      setNumber_top hrank hf (idx := r.next) h.numKeys h.good h.closed
+    have hgraph : ∀ o, o ∈ addNodes r.graph (reach ops fuel f) ↔ o ∈ r.graph ∨ Desc ops f o := by
+      intro o
+      rw [mem_addNodes, mem_reach_iff hrank hf]
+    rw [step_unregistered ops fuel hreg]
+    refine ⟨?_, hgraph⟩
+    exact
+      { numKeys := tk
+        good := tg
+        closed := tc
+        graphNodup := nodup_addNodes _ _ h.graphNodup
+        graph_iff := fun o => by rw [hgraph, tiff, h.graph_iff]
+        nodeKeys := h.nodeKeys
+        nodes_sound := by
+          intro n o hno
+          have hn := h.nodes_sound n o hno
+          by_cases hof : o = f
+          · subst hof
+            exact absurd (registered_of hn hno) hreg
+          · exact tframe o n hof hn }
+
+theorem foldl_step_winv {ops : ObjId → List ObjId} {rank : ObjId → Nat}
+    (hrank : ∀ o, ∀ c ∈ ops o, rank c < rank o) {fuel : Nat} :
+    ∀ (roots : List ObjId) (r : Reg), (∀ f ∈ roots, rank f < fuel) → WInv ops r →
+      WInv ops (roots.foldl (addRootStep ops fuel) r) ∧
+        (∀ o, o ∈ (roots.foldl (addRootStep ops fuel) r).graph ↔
+          o ∈ r.graph ∨ ∃ f ∈ roots, Desc ops f o) := by
+  intro roots
+  induction roots with
+  | nil => intro r _ h; exact ⟨h, fun o => by simp⟩
+  | cons f fs ih =>
+    intro r hf h
+    obtain ⟨h1, g1⟩ := step_winv hrank (hf f List.mem_cons_self) h
+    obtain ⟨h2, g2⟩ := ih (addRootStep ops fuel r f) (fun f' hf' => hf f' (List.mem_cons_of_mem _ hf')) h1
+    rw [List.foldl_cons]
+    refine ⟨h2, fun o => ?_⟩
+    rw [g2, g1]
+    simp only [List.mem_cons, exists_eq_or_imp, or_assoc]
+
+/-- `self.nodes[node.formula_number] = node` -/
+def writeNode (t : NumTab) (nd : NodeTab) (o : ObjId) : NodeTab :=
+  match assoc t o with
+  | some n => setNode nd n o
+  | none => nd
+
+/-- the loop `for node in graph.nodes: nodes[node.formula_number] = node` -/
+theorem refresh_fold {t : NumTab}
+    (hinj : ∀ o₁ o₂ n, assoc t o₁ = some n → assoc t o₂ = some n → o₁ = o₂) :
+    ∀ (L : List ObjId) (nd : NodeTab), KeysNodup nd →
+      (∀ n o, assoc nd n = some o → assoc t o = some n) →
+      KeysNodup (L.foldl (writeNode t) nd) ∧
+      (∀ n o, assoc (L.foldl (writeNode t) nd) n = some o → assoc t o = some n) ∧
+      (∀ n o, assoc nd n = some o → assoc (L.foldl (writeNode t) nd) n = some o) ∧
+      (∀ o ∈ L, ∀ n, assoc t o = some n → assoc (L.foldl (writeNode t) nd) n = some o) := by
+  intro L
+  induction L with
+  | nil =>
+    intro nd hk hs
+    exact ⟨hk, hs, fun _ _ h => h, fun o ho => absurd ho List.not_mem_nil⟩
+  | cons o os ih =>
+    intro nd hk hs
+    rw [List.foldl_cons]
+    unfold writeNode
+    cases ho : assoc t o with
+    | none =>
+      simp only
+      obtain ⟨k1, s1, p1, c1⟩ := ih nd hk hs
+      refine ⟨k1, s1, p1, ?_⟩
+      intro o' ho' n hn
+      rcases List.mem_cons.mp ho' with e | e
+      · subst e; rw [ho] at hn; cases hn
+      · exact c1 o' e n hn
+    | some m =>
+      simp only
+      have hs' : ∀ n o', assoc (setNode nd m o) n = some o' → assoc t o' = some n := by
+        intro n o' h
+        rw [assoc_setNode] at h
+        by_cases e : n = m
+        · subst e
+          simp only [if_true] at h
+          cases h; exact ho
+        · simp only [e, if_false] at h
+          exact hs n o' h
+      have hp : ∀ n o', assoc nd n = some o' → assoc (setNode nd m o) n = some o' := by
+        intro n o' h
+        rw [assoc_setNode]
+        by_cases e : n = m
+        · subst e
+          simp only [if_true]
+          rw [hinj o o' n ho (hs n o' h)]
+        · simp only [e, if_false]; exact h
+      obtain ⟨k1, s1, p1, c1⟩ := ih (setNode nd m o) (keysNodup_setNode m o hk) hs'
+      refine ⟨k1, s1, fun n o' h => p1 n o' (hp n o' h), ?_⟩
+      intro o' ho' n hn
+      rcases List.mem_cons.mp ho' with e | e
+      · subst e
+        rw [ho] at hn; cases hn
+        exact p1 _ _ (by rw [assoc_setNode]; simp)
+      · exact c1 o' e n hn
+
+theorem refresh_fold_id {t : NumTab} :
+    ∀ (L : List ObjId) (nd : NodeTab), (∀ o ∈ L, ∀ n, assoc t o = some n → assoc nd n = some o) →
+      L.foldl (writeNode t) nd = nd := by
+  intro L
+  induction L with
+  | nil => intro nd _; rfl
+  | cons o os ih =>
+    intro nd h
+    rw [List.foldl_cons]
+    have : writeNode t nd o = nd := by
+      unfold writeNode
+      cases ho : assoc t o with
+      | none => rfl
+      | some m => exact setNode_eq_self (h o List.mem_cons_self m ho)
+    rw [this]
+    exact ih nd (fun o' ho' => h o' (List.mem_cons_of_mem _ ho'))
+
+theorem refreshNodes_eq (r : Reg) :
+    refreshNodes r = { r with nodes := r.graph.foldl (writeNode r.num) r.nodes } := rfl
+
+/-- the end of an `add_knowledge` call re-establishes the full invariant -/
+theorem refresh_inv {ops : ObjId → List ObjId} {r : Reg} (h : WInv ops r) :
+    Inv ops (refreshNodes r) := by
+  obtain ⟨k1, s1, _, c1⟩ := refresh_fold h.good.1 r.graph r.nodes h.nodeKeys h.nodes_sound
+  rw [refreshNodes_eq]
+  exact
+    { numKeys := h.numKeys
+      good := h.good
+      closed := h.closed
+      graphNodup := h.graphNodup
+      graph_iff := h.graph_iff
+      nodeKeys := k1
+      nodes_sound := s1
+      nodes_complete := fun o n hn => c1 o ((h.graph_iff o).mpr ⟨n, hn⟩) n hn }
+
+theorem refresh_id {ops : ObjId → List ObjId} {r : Reg} (h : Inv ops r) : refreshNodes r = r := by
+  rw [refreshNodes_eq, refresh_fold_id r.graph r.nodes (fun o _ n hn => h.nodes_complete o n hn)]
+
+/-- one `add_knowledge(*roots)` call -/
+theorem addCall_inv {ops : ObjId → List ObjId} {rank : ObjId → Nat}
+    (hrank : ∀ o, ∀ c ∈ ops o, rank c < rank o) {fuel : Nat} {r : Reg} {roots : List ObjId}
+    (hf : ∀ f ∈ roots, rank f < fuel) (h : Inv ops r) :
+    Inv ops (addCall ops fuel r roots) ∧
+      (∀ o, o ∈ (addCall ops fuel r roots).graph ↔ o ∈ r.graph ∨ ∃ f ∈ roots, Desc ops f o) := by
+  obtain ⟨h1, g1⟩ := foldl_step_winv hrank roots r hf h.toWInv
+  exact ⟨refresh_inv h1, g1⟩
+
+/-- any history of `add_knowledge` calls -/
+theorem addKnowledgeCalls_inv {ops : ObjId → List ObjId} {rank : ObjId → Nat}
+    (hrank : ∀ o, ∀ c ∈ ops o, rank c < rank o) {fuel : Nat} :
+    ∀ (calls : List (List ObjId)) (r : Reg), (∀ call ∈ calls, ∀ f ∈ call, rank f < fuel) →
+      Inv ops r →
+      Inv ops (addKnowledgeCalls ops fuel r calls) ∧
+        (∀ o, o ∈ (addKnowledgeCalls ops fuel r calls).graph ↔
+          o ∈ r.graph ∨ ∃ call ∈ calls, ∃ f ∈ call, Desc ops f o) := by
+  intro calls
+  induction calls with
+  | nil => intro r _ h; exact ⟨h, fun o => by simp [addKnowledgeCalls]⟩
+  | cons c cs ih =>
+    intro r hf h
+    obtain ⟨h1, g1⟩ := addCall_inv hrank (hf c List.mem_cons_self) h
+    obtain ⟨h2, g2⟩ := ih (addCall ops fuel r c) (fun c' hc' => hf c' (List.mem_cons_of_mem _ hc')) h1
+    unfold addKnowledgeCalls at h2 g2 ⊢
+    rw [List.foldl_cons]
+    refine ⟨h2, fun o => ?_⟩
+    rw [g2, g1]
+    simp only [List.mem_cons, exists_eq_or_imp, or_assoc]
+
+theorem addKnowledge_eq_calls (ops : ObjId → List ObjId) (fuel : Nat) (r : Reg)
+    (roots : List ObjId) :
+    addKnowledge ops fuel r roots = addKnowledgeCalls ops fuel r (roots.map fun f => [f]) := by
+  unfold addKnowledge addKnowledgeCalls
+  rw [List.foldl_map]
+  rfl
+
+/-- a call all of whose roots are already numbered (hence registered) leaves the registry
+literally unchanged -/
+theorem addCall_id {ops : ObjId → List ObjId} {fuel : Nat} {r : Reg} (h : Inv ops r) :
+    ∀ (roots : List ObjId), (∀ f ∈ roots, Numbered r.num f) → addCall ops fuel r roots = r := by
+  intro roots hroots
+  have hfold : roots.foldl (addRootStep ops fuel) r = r := by
+    induction roots with
+    | nil => rfl
+    | cons f fs ih =>
+      obtain ⟨n, hn⟩ := hroots f List.mem_cons_self
+      rw [List.foldl_cons,
+        step_registered fuel h.toWInv (registered_of hn (h.nodes_complete f n hn))]
+      exact ih (fun f' hf' => hroots f' (List.mem_cons_of_mem _ hf'))
+  unfold addCall
+  rw [hfold, refresh_id h]
+
+/-- one root per call keeps the numbers dense -/
+theorem addRoot_dense {ops : ObjId → List ObjId} {rank : ObjId → Nat}
+    (hrank : ∀ o, ∀ c ∈ ops o, rank c < rank o) {fuel : Nat} {r : Reg} {f : ObjId}
+    (hf : rank f < fuel) (h : Inv ops r) (hd : Dense r) : Dense (addRoot ops fuel r f) := by
+  by_cases hnum : Numbered r.num f
+  · have : addRoot ops fuel r f = r := addCall_id h [f] (by simpa using hnum)
+    rw [this]; exact hd
+  · have hnone : assoc r.num f = none := by
+      cases hx : assoc r.num f with
+      | none => rfl
+      | some n => exact absurd ⟨n, hx⟩ hnum
+    have hreg : ¬ registered r f = true := by
+      intro hreg
+      obtain ⟨n, hn, _⟩ := of_registered hreg
+      exact hnum ⟨n, hn⟩
+    obtain ⟨e, _⟩ := setNumber_ext hrank fuel f r.next r.num hf hnone
+    intro n hn
+    have hstep := step_unregistered ops fuel hreg
+    have hn' : n < (setNumber ops fuel f r.next r.num).2 + 1 := by
+      simpa [addRoot, addCall, refreshNodes_eq, hstep] using hn
+    have goal : ∃ o, assoc (setNumber ops fuel f r.next r.num).1 o = some n := by
+      by_cases hlt : n < r.next
+      · obtain ⟨o, ho⟩ := hd n hlt
+        exact ⟨o, e.frame o n ho⟩
+      · exact e.dense n (Nat.le_of_not_lt hlt) hn'
+    simpa [addRoot, addCall, refreshNodes_eq, hstep, numOf] using goal
+
+end Reg
 end LNN
